@@ -219,6 +219,59 @@ let rec ttree (x : sx) : float tev =
   | L (A "P" :: tp :: kids) -> TSim (tempo_of tp, List.map ttree kids)
   | _ -> failwith "tempo tree expected"
 
+(* ---- M4: equality *)
+let tempo_e (x : sx) : tempoE =
+  match x with
+  | L (b :: pts) -> { bpm0 = zi b; rest = List.map (fun p -> match p with L [t; v; c] -> ((zi t, zi v), zi c) | _ -> failwith "tempo point") pts }
+  | _ -> failwith "tempoE"
+let rec ev_e (x : sx) : evE =
+  match x with
+  | L [A "L"; d; tg; tp; L ex] ->
+      ELeaf { ldur = zi d; ltag = zi tg; ltempo = tempo_e tp;
+              lextra = List.map (fun p -> match p with L [n; v] -> (zi n, zi v) | _ -> failwith "extra") ex }
+  | L (A "S" :: tg :: tp :: kids) -> ECont (KSeqE, zi tg, tempo_e tp, List.map ev_e kids)
+  | L (A "P" :: tg :: tp :: kids) -> ECont (KSimE, zi tg, tempo_e tp, List.map ev_e kids)
+  | L [A "N"; v] -> ENonEvent (zi v)
+  | _ -> failwith ("evE expected: " ^ show x)
+let sb (b : bool) : sx = A (if b then "1" else "0")
+
+(* ---- M5: numbers. Rationals travel as (q num den) with den > 0 *)
+let qq (x : sx) : q =
+  match x with
+  | L [A "q"; n; d] -> { qnum = zi n; qden = (match zi d with Zpos p -> p | _ -> failwith "den") }
+  | _ -> failwith "rational expected"
+let kind_of (x : sx) = match x with A "D" -> KDirect | A "R" -> KRatio | _ -> failwith "kind"
+let skind_s k = A (match k with KDirect -> "D" | KRatio -> "R")
+let durv_of (x : sx) : durv = match x with L [k; t] -> { dk = kind_of k; dt = zi t } | _ -> failwith "durv"
+let aop_of (x : sx) = match x with A "add" -> OAdd | A "sub" -> OSub | A "mul" -> OMul | A "div" -> ODiv | _ -> failwith "aop"
+let pin_of (x : sx) : pin =
+  match x with
+  | L [A "same"] -> PSame
+  | L [A "int"; z] -> PInt (zi z)
+  | L [A "float"; r] -> PFloat (qq r)
+  | L [A "frac"; r] -> PFrac (qq r)
+  | L [A "str-int"; z] -> PStr (SInt (zi z))
+  | L [A "str-float"; r] -> PStr (SFloat (qq r))
+  | L [A "str-frac"; n; d] -> PStr (SFrac (zi n, zi d))
+  | L [A "str-list"] -> PStr SList
+  | L [A "str-junk"; _] -> PStr SJunk
+  | L [A "points"] -> PPoints
+  | L [A "other"; _] -> POther
+  | _ -> failwith ("pin " ^ show x)
+let pout_s (r : pout res) : sx =
+  match r with
+  | Err k -> rerr k
+  | Ok OSame -> L [A "ok"; A "same"]
+  | Ok (ODirect v) -> L [A "ok"; A "direct"; sz (to_ticks v)]
+  | Ok (ORatio v) -> L [A "ok"; A "ratio"; sz (to_ticks v)]
+  | Ok OFlex -> L [A "ok"; A "flex"]
+let upd_of (x : sx) : upd =
+  match x with
+  | L [A "set"; r] -> USet (qq r)
+  | L [A "read"] -> URead
+  | L [o; r] -> UArith (aop_of o, qq r)
+  | _ -> failwith "upd"
+
 let eval (x : sx) : sx =
   match x with
   | L [A "dur"; t] -> L [A "ok"; sz (dur (tree t))]
@@ -235,6 +288,29 @@ let eval (x : sx) : sx =
            | Ok e -> go e r (L [A "ok"; stree e] :: acc)
            | Err k -> List.rev (L [A "err"; A (err_name k)] :: acc)) in
       L (A "hist" :: go (tree t) ops [])
+  | L [A "cmp"; d; r] ->
+      let d = durv_of d and r = qq r in
+      L [A "ok"; sb (d_lt d r); sb (d_le d r); sb (d_eq d r); sb (d_ne d r); sb (d_ge d r); sb (d_gt d r)]
+  | L [A "arith"; o; d; r] ->
+      (match arith (aop_of o) (durv_of d) (qq r) with
+       | Ok v -> L [A "ok"; skind_s v.dk; sz v.dt]
+       | Err k -> rerr k)
+  | L (A "durhist" :: k :: r0 :: us) ->
+      (* a history of updates and reads on one duration object: the reported beat counts *)
+      let rec go (s : dstate) (us : sx list) (acc : sx list) : sx list =
+        match us with
+        | [] -> List.rev (sz (st_beat s) :: acc)
+        | u :: r ->
+          (match st_run s [upd_of u] with
+           | Ok s' -> go s' r (sz (st_beat s') :: acc)
+           | Err k -> List.rev (rerr k :: acc)) in
+      let s0 = { skind = kind_of k; sratio = qq r0; scache = None } in
+      L (A "ok" :: go s0 us [])
+  | L [A "parse_d"; p] -> pout_s (parse_duration (pin_of p))
+  | L [A "parse_t"; p] -> pout_s (parse_tempo (pin_of p))
+  | L [A "eq"; a; b] ->
+      let a = ev_e a and b = ev_e b in
+      L [A "ok"; sb (ev_eqb a b); sb (ev_eqb b a); sb (ev_neqb a b); sb (ev_neqb b a)]
   | L (A "convert" :: tp :: trees) ->
       (* a history of conversions on one converter *)
       let senv = seconds_env fnum (penv tp) in
